@@ -110,6 +110,8 @@ def region_eval(t, A, B):
             return None
         if t[2] == ('slice', T.CONST_NONE, T.CONST_NONE, const(-1)):
             return Regions(x.c, x.base)
+        if t[2][0] == 'slice' and t[2][1] == T.CONST_NONE and t[2][2] == T.CONST_NONE and _unit_step(t[2][3]):
+            return Regions(x.c, x.base)        # [::s] with s always +1 or -1: every label is kept
         m = region_eval(t[2], A, B)
         if isinstance(m, tuple) and m[0] == 'mask':
             # the mask must have been computed over the same array it is applied to
@@ -122,6 +124,26 @@ def region_eval(t, A, B):
                 return Regions({k: (v if k not in m[2] else 0) for k, v in x.c.items()}, x.base)
         return None
     return None
+
+
+def _unit_step(step):
+    """the step expression of a slice evaluates to +1 / -1 (or None) whatever the order of the end labels it is computed from: every leaf of the expression is a
+    first / last label (x[0], x[-1]); all orderings of up to four such leaves over four values are enumerated"""
+    import itertools
+    from ..rules import val_eval, UNKNOWN
+    if step == T.CONST_NONE or step in (const(1), const(-1)):
+        return True
+    leaves = []
+    for x in T.subterms(step):
+        if x[0] == 'sub' and x[2] in (const(0), const(-1)) and x not in leaves:
+            leaves.append(x)
+    if not leaves or len(leaves) > 4:
+        return False
+    for vals in itertools.product(range(4), repeat=len(leaves)):
+        v = val_eval(step, dict(zip(leaves, vals)))
+        if v is UNKNOWN or v not in (None, 1, -1):
+            return False
+    return True
 
 
 def _walk_mismatch(t, A, B):
@@ -404,7 +426,14 @@ def rule_sort_ownership(ctx):
     fi = _collection_host(ctx)
     ev = run(ctx, fi, bind={'sort': T.CONST_TRUE}, mode='join')
     sorts = [e for p in ev.paths for e in p.calls('sort')]
-    if not sorts:
+    interpreted = False
+    if not sorts and AL + '_get_aligned_axes' in ctx.P.functions:
+        # the sorting happens somewhere else (handed down to a helper together with the option): what sort=True returns, and what it leaves of the inputs' own
+        # axes, is read off the interpreted scenarios of _get_aligned_axes (a lone axis, an empty axis next to a full one, two and three inputs)
+        from ..scenario_rule import rule_scenarios
+        rule_scenarios(ctx, 'R4', only=AL + '_get_aligned_axes', title='sorted common axis is a fresh copy (interpreted scenarios of _get_aligned_axes)')
+        interpreted = True
+    elif not sorts:
         ctx.violated('R4', fi, 'sort=True', 'sort=True never sorts the common axis')
     seen = set()
     for e in sorts:
@@ -426,7 +455,7 @@ def rule_sort_ownership(ctx):
             ctx.holds('R5', 'ax.sort() without arguments')
         # the sorted copy is what gets appended
     # the appended axis is the sorted copy
-    for p in ev.paths:
+    for p in ev.paths if not interpreted else []:
         for e in p.calls('append'):
             if e.loops and T.show(e.a[1]).endswith('.append'):
                 a = e.a[2][0]
@@ -735,7 +764,17 @@ def rule_union_direction(ctx):
                 outcomes.add('unsorted' if not any(c[0] == 'call' and T.dotted(c[1]) in ('np.union1d', 'numpy.union1d') for c in T.subterms(v)) else 'sorted')
                 continue
             u = [c for c in T.subterms(v) if c[0] == 'call' and T.dotted(c[1]) in ('np.union1d', 'numpy.union1d')]
-            rev = [x for x in T.subterms(v) if x[0] == 'sub' and x[2][0] == 'slice' and x[2][3] == const(-1) and u and T.contains(x[1], u[0])]
+            # reversed: sliced with a step of -1, as a constant or as an expression of the end labels that evaluates to -1 in this scenario (`[::slope]`)
+            from ..rules import val_eval, UNKNOWN
+            rev = []
+            for x in T.subterms(v):
+                if x[0] == 'sub' and x[2][0] == 'slice' and u and T.contains(x[1], u[0]) and x[2][1] == T.CONST_NONE and x[2][2] == T.CONST_NONE:
+                    step = val_eval(x[2][3], atoms)
+                    if step is UNKNOWN or step not in (None, 1, -1):
+                        ctx.undecide('R10', '%s: step of the slice applied to the sorted union is not decided: %s' % (inst, T.show(x[2][3])[:100]))
+                        ok = False
+                    elif step == -1:
+                        rev.append(x)
             outcomes.add('unsorted' if not u else ('dec' if rev else 'inc'))
             want_rev = 'dec' in (da, db)
             if not u:
